@@ -458,9 +458,20 @@ class MulToUF:
         def repl(m):
             nonlocal n
             ops = [o.strip() for o in re.split(r"\s*\*\s*", m.group(1))]
-            acc = ops[0]
-            for o in ops[1:]:
+            lits = [o for o in ops if re.fullmatch(r"\d+(?:\.\d*)?", o)]
+            var = [o for o in ops if o not in lits]
+            if not var:
+                return m.group(1)
+            acc = var[0]
+            for o in var[1:]:
                 acc = "%s(%s, %s)" % (self.fn, acc, o)
+                n += 1
+            if lits:
+                # numeric literal factors are pulled out in front (exact scaling, position in the chain irrelevant)
+                if lits == ["2"]:
+                    acc = "(%s + %s)" % (acc, acc)   # doubling is exact: 2 * x == x + x in IEEE arithmetic
+                else:
+                    acc = "(%s * %s)" % (" * ".join(lits), acc)
                 n += 1
             return acc
 
